@@ -112,7 +112,9 @@ class AstNode(object):
         * namespace member
         * enumerator
         """
-        raise NotImplemented  # virtual function
+        # A node without a scope of its own (typedef, variable, ...)
+        # has no members: the caller reports the unknown symbol.
+        return None
 
     def unqualified_lookup(self, name):
         """Look for symbols within a scope.
